@@ -441,11 +441,15 @@ func (txn *Txn[T]) LowerBound(key index.Key) *Iterator[T] {
 }
 
 func (txn *Txn[T]) Commit() Trie[T] {
-	return Trie[T]{
+	t := Trie[T]{
 		root:      txn.root,
 		size:      txn.size,
 		prevTxnID: txn.txnID,
 	}
+	// Bump txnID in order to freeze the committed trie: further writes
+	// with this transaction must clone the nodes again.
+	txn.txnID++
+	return t
 }
 
 // longestMatch returns the number of common prefix bits.
